@@ -25,6 +25,10 @@ func runC09(c *Ctx) {
 			c09StaleSenders(c)
 		case "slowhandler":
 			c09SlowHandlers(c)
+		case "slowhandler2":
+			c09SlowHandlerSuccessor(c)
+		case "fullqueue":
+			c09FullQueue(c)
 		case "secs1":
 			c09SECS1(c)
 		case "slowreader":
@@ -36,6 +40,10 @@ func runC09(c *Ctx) {
 	c09StaleSenders(c)
 	// the generation ends while an application handler still runs: waiters are released by the START of the teardown
 	c09SlowHandlers(c)
+	// ... the teardown gives up on the blocked handler, the successor generation is up, THEN the handler returns (c09_slowhandler2.go)
+	c09SlowHandlerSuccessor(c)
+	// async senders (and the receive loop) parked on a FULL fire-and-forget queue when the generation ends (c09_fullqueue.go)
+	c09FullQueue(c)
 	// senders of generation N pass the transport boundary only after N+1 is up, while N+1's peer reads a frame slowly (c09_slowreader.go)
 	c09SlowReader(c)
 	// the SECS-I transport: sends parked at the hand-off / mid-block / awaiting a reply when the generation ends
